@@ -4382,13 +4382,13 @@ class FlowIR(object):
                     stage_weight = float(flowir[self.FieldStatusReport][idx]['stage-weight'])
                 except ValueError:
                     stage_weight = 0.0
+                    flowir[self.FieldStatusReport][idx]['stage-weight'] = stage_weight
 
                 weights.append(stage_weight)
 
-            # VV: adding floats is hard, let's assume that there're at most 2 decimals
-            int_weights = [int(e * 1000) for e in weights]
-
-            if sum(int_weights) != 1000:
+            # VV: adding floats is hard, accept the given weights when they are non-negative and add up to
+            #     one within a small tolerance
+            if min(weights) < 0 or abs(sum(weights) - 1.0) > 1e-9:
                 fallbackWeight = int(1000 / num_stages) / 1000.0
 
                 flowirLogger.log(19, "Stage weights do not add to one: %s = %3.3lf\n" % (weights, sum(weights)))
